@@ -1017,7 +1017,7 @@ func doWd(f []string) string {
 	if err := d.WriteDirectory(&cd, &eod, force); err != nil {
 		return "err " + classify(err)
 	}
-	if err := d.WriteDirectory(&cd2, &eod2, force); err != nil { // GetDirectoryHeader mutates Extra: second call grows
+	if err := d.WriteDirectory(&cd2, &eod2, force); err != nil { // second call on the same directory: same bytes since fix 7d5f1c2 (before: GetDirectoryHeader stored the ZIP64 field back into Extra)
 		return "err " + classify(err)
 	}
 	head := cd.Bytes()
